@@ -296,8 +296,9 @@ def replay_mono_program(kind):
     resid = [l for l in txt.splitlines() if _re.search(r'\b[TAB]\b', l) and l.startswith('fn ')]
     return len(insts) != 2 or bool(resid), 'goml `%s`: mono dump has the instances %s%s' % (src.replace('\n', ' | '), insts, (' and type parameters left in ' + resid[0]) if resid else '')
 
-def ob_mono_instances(r, tier, seed):
+def ob_mono_instances(r, tier, seed, hash_symbolic=False):
     W = e2.fresh_world(CRATES); tt = W.tt; W.step_limit = 400000
+    if hash_symbolic: W.hash_order = 'symbolic'
     TY = tt.find_adt(['tast', 'Ty'], 'compiler'); CE = tt.find_adt(['core', 'Expr'], 'compiler'); CF = tt.find_adt(['core', 'Fn'], 'compiler'); CFILE = tt.find_adt(['core', 'File'], 'compiler')
     PR = tt.find_adt(['common', 'Prim'], 'compiler'); MFN = [a for a in tt.by_name['MonoFn'] if a.crate == 'compiler'][0]
     r.bounds = 'three programs with one generic function called at two different type arguments from main: the parameter occurs (a) only in the result type `fn mk[T]() -> Vec[T]`, (b) in a value parameter `fn id[T](x: T) -> T`, (c) only in the result of a function-typed parameter `fn run[A, B](f: (A) -> B, x: A)`'
@@ -343,6 +344,7 @@ def ob_mono_instances(r, tier, seed):
             out.append((ms.pystr(fd['name']), [shape(p_.fields[1], TY) for p_ in fd['params'].items], shape(fd['ret_ty'], TY)))
         return kind, gname, out
     res = e2.explore(r, W, entry, [])
+    if hash_symbolic: return res
     for p in res:
         r.cases += 1
         if p.kind != 'ok':
@@ -461,3 +463,40 @@ def ob_mono_body_types(r, tier, seed):
 _obligations_75 = obligations
 def obligations():
     return _obligations_75() + [Ob('O7.6-instance-body-types', 'no type parameter survives in any type stored inside the body of an instance', ob_mono_body_types, ('quick', 'thorough'), 5, {})]
+
+# ----------------------------------------------------------------------------- O13.10 (registered under C13) the order of the functions mono::mono emits does not depend on hash iteration order
+def replay_mono_order(kind, runs=24):
+    src = {'result-only': 'fn mk[T]() -> Vec[T] { vec_new() }\nfn main() -> unit { let a: Vec[int32] = mk(); let b: Vec[bool] = mk(); () }\n',
+           'param': 'fn id[T](x: T) -> T { x }\nfn main() -> unit { let a = id(1); let b = id(true); () }\n',
+           'fn-result': 'fn run[A, B](f: (A) -> B, x: A) -> unit { () }\nfn s(x: int32) -> string { "a" }\nfn b(x: int32) -> bool { true }\nfn main() -> unit { let u = run(s, 1); let v = run(b, 1); () }\n'}[kind]
+    d = tempfile.mkdtemp(prefix='vf-c13mo-'); outs = {}
+    try:
+        open(os.path.join(d, 'main.gom'), 'w').write(src)
+        for _ in range(runs):
+            p = subprocess.run([build.compiler_bin(), 'run', '--dump-mono', os.path.join(d, 'main.gom')], capture_output=True, text=True, timeout=60)
+            outs[p.stdout] = outs.get(p.stdout, 0) + 1
+    finally: shutil.rmtree(d, ignore_errors=True)
+    return len(outs) > 1, 'goml `%s`: %d fresh processes print %d different mono dumps %s' % (src.replace('\n', ' | '), runs, len(outs), sorted(outs.values()))
+
+def ob_mono_order(r, tier, seed):
+    res = ob_mono_instances(r, tier, seed, hash_symbolic=True)
+    r.bounds = 'the three programs of O7.5 (one generic function called at two type arguments); the iteration order of every std HashMap / HashSet that mono::mono iterates is a solver-chosen permutation'
+    r.assumptions = ['names::ty_compact replaced by an injective stand-in', 'oracle: every execution of mono::mono on one program returns the same functions in the same order']
+    by = {}
+    for p in res:
+        r.cases += 1
+        if p.kind != 'ok':
+            if not any(f.key == 'panic' for f in r.findings): r.findings.append(Finding('panic', 'mono::mono panics under some iteration order: %s' % str(p.value)[:160], {}, False, 'not replayed'))
+            continue
+        kind, gname, out = p.value
+        by.setdefault(kind, set()).add(tuple(o[0] for o in out))
+    r.nontrivial = len(by)
+    for kind, seqs in by.items():
+        if len(seqs) > 1:
+            try: ok_, detail = replay_mono_order(kind)
+            except Exception as e_: ok_, detail = False, 'replay failed: %s' % str(e_)[:160]
+            r.findings.append(Finding('instance-order-depends-on-hash-order:' + kind, 'program (%s): mono::mono emits its functions in %d different orders depending on hash iteration: %s' % (kind, len(seqs), sorted(seqs)[:2]), {'program': kind}, ok_, detail))
+        else: r.samples.append({'program': kind, 'order': list(next(iter(seqs)))})
+
+def obligations_c13():
+    return [Ob('O13.10-mono-instance-order', 'the order of the functions emitted by mono::mono is independent of hash iteration order', ob_mono_order, ('quick', 'thorough'), 3, {})]
